@@ -431,15 +431,21 @@ def _check_kind_order(ctx, rep):
     fm = meth("_get_operation_mode_to_total_index_map")
     r = returns(fm)
     ok, why = True, ""
-    if r and isinstance(r[0].value, ast.Call) and dotted(r[0].value.func) == "dict":
-        for kw in r[0].value.keywords:
+    mapv = r[0].value if r else None
+    if isinstance(mapv, ast.Name):
+        mapv = inline(fm, mapv, depth=2)
+    if isinstance(mapv, ast.Dict) and mapv.keys and all(isinstance(k_, ast.Constant) and isinstance(k_.value, str) for k_ in mapv.keys):
+        # {"state": 0, ...} is dict(state=0, ...)
+        mapv = ast.Call(func=ast.Name(id="dict", ctx=ast.Load()), args=[], keywords=[ast.keyword(arg=k_.value, value=v_) for k_, v_ in zip(mapv.keys, mapv.values)])
+    if r and isinstance(mapv, ast.Call) and dotted(mapv.func) == "dict" and not mapv.args:
+        for kw in mapv.keywords:
             e = inline(fm, kw.value, depth=8)
             before = sorted(_kind_of(dotted(x.func) or "") for x in ast.walk(e) if isinstance(x, ast.Call)
                             and "size_var" in (dotted(x.func) or ""))
             want = sorted(ref[: ref.index(kw.arg)]) if kw.arg in ref else None
             if before != want:
                 ok, why = False, "first index of '%s' sums the sizes of %s, but %s precede it in the variable vector" % (kw.arg, before, want)
-        if sorted(k.arg for k in r[0].value.keywords) != sorted(KINDS):
+        if sorted(str(k.arg) for k in mapv.keywords) != sorted(KINDS):
             ok, why = False, "map does not cover the four kinds"
         rep.check(ok, "I4", fm, r[0], "first index of each kind = total size of the kinds before it", why, node=r[0])
     else:
